@@ -162,10 +162,9 @@ Example C07_all_up_satisfiable :
 Proof.
   split.
   - split; [|intros H; discriminate H]. intros i [<-|[]]. exists 30%Z. split; [reflexivity|].
-    intros j x Hx. assert (Hin : In ((j, 0, FCrt), VCrt x) (w_st w7_w0)).
-    { unfold dir_crt in Hx. destruct (sget (w_st w7_w0) (j, 0, FCrt)) as [[?|y|?]|] eqn:E; try discriminate.
-      injection Hx as <-. apply sget_in, E. }
-    vm_compute in Hin. destruct Hin as [H|[H|[H|[]]]]; try discriminate. injection H as _ <-. reflexivity.
+    intros j x. remember (w_st w7_w0) as st eqn:Est. vm_compute in Est. subst st.
+    unfold dir_crt. intros Hx. apply sget_in in Hx || (destruct (sget _ _) as [[?|y|?]|] eqn:E in Hx; try discriminate;
+      injection Hx as <-; apply sget_in in E; destruct E as [H|[H|[H|[]]]]; try discriminate; injection H as _ <-; reflexivity).
   - pose proof (reach6_inv _ _ _ w7_reach) as I. constructor.
     + apply (i_typed _ _ _ I). + apply (i_unlocked _ _ _ I). + reflexivity.
     + intros i x H. apply (i_crt _ _ _ I _ _ _ H). + cbn; auto.
